@@ -438,7 +438,13 @@ def slice_with_int_dask_array_aggregate(idx, chunk_outputs, x_chunks, axis):
     idx = idx.astype(np.int64)
 
     # Normalize negative indices
-    idx = np.where(idx < 0, idx + sum(x_chunks), idx)
+    x_size = sum(x_chunks)
+    idx = np.where(idx < 0, idx + x_size, idx)
+
+    # An index outside the axis falls into no chunk of x: it must not silently
+    # pick up another element (NumPy raises IndexError)
+    if ((idx < 0) | (idx >= x_size)).any():
+        raise IndexError(f"Index is out of bounds for axis {axis} with size {x_size}")
 
     x_chunk_offset = 0
     chunk_output_offset = 0
